@@ -1099,12 +1099,12 @@ Section DiskRefine.
   Variable dec_env : bytes -> option envelope.
   Variable enc_meta : meta -> bytes.
   Variable dec_meta : bytes -> option meta.
-  Variable chunk : nat.
+  Variable chunk : wcfg.
   Hypothesis dec_enc_env : forall e, dec_env (enc_env e) = Some e.
   Hypothesis dec_enc_meta : forall m, dec_meta (enc_meta m) = Some m.
   Hypothesis enc_env_nonempty : forall e, enc_env e <> [].
   Hypothesis enc_meta_nonempty : forall m, enc_meta m <> [].
-  Hypothesis chunk_pos : chunk <> O.
+  Hypothesis chunk_pos : wcfg_ok chunk.
 
   Notation dprog_of := (disk_prog enc_env dec_env enc_meta dec_meta chunk).
   Notation dstep := (disk_step enc_env dec_env enc_meta dec_meta chunk).
@@ -1592,7 +1592,7 @@ Section DiskFrame.
   Variable dec_env : bytes -> option envelope.
   Variable enc_meta : meta -> bytes.
   Variable dec_meta : bytes -> option meta.
-  Variable chunk : nat.
+  Variable chunk : wcfg.
   Notation dprog_of := (disk_prog enc_env dec_env enc_meta dec_meta chunk).
 
   Lemma path_eqb_sub F p : F p = true -> forall x, path_eqb p x = true -> F x = true.
@@ -1602,17 +1602,23 @@ Section DiskFrame.
     F p = true -> F (PTmp t) = true -> confined dfp F k ->
     confined dfp F (write_loop chunk fuel t off rest p k).
   Proof.
+    assert (Hren : confined dfp F k -> F p = true -> F (PTmp t) = true ->
+                   confined dfp F (Do (CRename t p) (fun _ => Do (CClose t) (fun _ => k)))).
+    { intros Hk Hp Ht. eapply conf_do; [reflexivity| |intros; eapply conf_do; [reflexivity|apply path_eqb_sub; exact Ht|intros; exact Hk]].
+      intros x Hx. apply orb_prop in Hx as [Hx|Hx]; [apply (path_eqb_sub F (PTmp t) Ht x Hx)|apply (path_eqb_sub F p Hp x Hx)]. }
+    assert (Hcl : forall r : res, F (PTmp t) = true -> confined dfp F (Do (CClose t) (fun _ : dans => Ret r) : dprog)).
+    { intros r Ht. eapply conf_do; [reflexivity|apply path_eqb_sub; exact Ht|intros; constructor]. }
     induction fuel as [|f IH]; intros off rest Hp Ht Hk; cbn [write_loop].
-    - eapply conf_do; [reflexivity|apply path_eqb_sub; exact Ht|]. intros a.
-      destruct (firstn chunk rest); [eapply conf_do; [reflexivity|apply path_eqb_sub; exact Ht|intros; constructor]|].
-      destruct (skipn chunk rest); [|constructor].
-      eapply conf_do; [reflexivity| |intros; eapply conf_do; [reflexivity|apply path_eqb_sub; exact Ht|intros; exact Hk]].
-      intros x Hx. apply orb_prop in Hx as [Hx|Hx]; [apply (path_eqb_sub F (PTmp t) Ht x Hx)|apply (path_eqb_sub F p Hp x Hx)].
-    - eapply conf_do; [reflexivity|apply path_eqb_sub; exact Ht|]. intros a.
-      destruct (firstn chunk rest); [eapply conf_do; [reflexivity|apply path_eqb_sub; exact Ht|intros; constructor]|].
-      destruct (skipn chunk rest); [|apply IH; assumption].
-      eapply conf_do; [reflexivity| |intros; eapply conf_do; [reflexivity|apply path_eqb_sub; exact Ht|intros; exact Hk]].
-      intros x Hx. apply orb_prop in Hx as [Hx|Hx]; [apply (path_eqb_sub F (PTmp t) Ht x Hx)|apply (path_eqb_sub F p Hp x Hx)].
+    - destruct (firstn (w_chunk chunk) rest) as [|x l].
+      + eapply conf_do; [reflexivity|apply path_eqb_sub; exact Ht|intros; apply Hcl; exact Ht].
+      + destruct (written chunk t off (length (x :: l))) as [w|]; [|apply Hcl; exact Ht].
+        eapply conf_do; [reflexivity|apply path_eqb_sub; exact Ht|]. intros a.
+        destruct (skipn w rest); [apply Hren; assumption|constructor].
+    - destruct (firstn (w_chunk chunk) rest) as [|x l].
+      + eapply conf_do; [reflexivity|apply path_eqb_sub; exact Ht|intros; apply Hcl; exact Ht].
+      + destruct (written chunk t off (length (x :: l))) as [w|]; [|apply Hcl; exact Ht].
+        eapply conf_do; [reflexivity|apply path_eqb_sub; exact Ht|]. intros a.
+        destruct (skipn w rest); [apply Hren; assumption|apply IH; assumption].
   Qed.
 
   Lemma confined_dump F data t p k :
@@ -1842,7 +1848,7 @@ Section DiskReaders.
   Variable dec_env : bytes -> option envelope.
   Variable enc_meta : meta -> bytes.
   Variable dec_meta : bytes -> option meta.
-  Variable chunk : nat.
+  Variable chunk : wcfg.
   Notation dprog_of := (disk_prog enc_env dec_env enc_meta dec_meta chunk).
 
   Lemma disk_read_ro o : is_read o = true -> ro_prog fs dcmd dans dexec (dprog_of o).
